@@ -1,3 +1,5 @@
+import SccacheModel.Gen.Consts
+
 namespace TM
 
 /-! Sketch (design round): literal transcription of `util::TimeMacroFinder`. -/
@@ -10,6 +12,12 @@ def strBytes (s : String) : Bytes := s.toUTF8.toList
 def patTimestamp : Bytes := [95, 95, 84, 73, 77, 69, 83, 84, 65, 77, 80, 95, 95]
 def patTime : Bytes := [95, 95, 84, 73, 77, 69, 95, 95]
 def patDate : Bytes := [95, 95, 68, 65, 84, 69, 95, 95]
+
+/-- the literals above are what `find_macros` searches for **in the current source** (`Gen/Consts.lean` is regenerated from
+    util.rs on every run; a changed pattern or haystack length makes this theorem, and everything importing it, fail) -/
+theorem patterns_match_source :
+    patTimestamp = GenC.patTimestamp ∧ patTime = GenC.patTime ∧ patDate = GenC.patDate ∧ maxHay = GenC.maxHaystackLen :=
+  ⟨rfl, rfl, rfl, rfl⟩
 
 /-- `memmem::find(buf, pat).is_some()` -/
 def hasInfix (pat : Bytes) : Bytes → Bool
